@@ -188,7 +188,11 @@ def main():
             r3["sweeps"] = r3["sweeps"] + [copy.deepcopy(r3["sweeps"][-1])]   # keeps iterating after convergence
             r3["end"]["iters"] = len(r3["sweeps"])
             v, _, _ = tlc.validate("TraceSolver.tla", "TraceSolver.cfg", [[r3]], ctx.work)
-            expect("TraceSolver", "loop performs a sweep after the converged one", clauses(v), ["C03.Sweep.Machine"])
+            # (allowed by C03 - an implementation may be stricter than asked - and recorded as a note, not a verdict)
+            notes = sorted({x["clause"] for x in v if x["clause"].startswith("note.")})
+            rows.append(("TraceSolver", "loop performs a sweep after the converged one (no verdict, a note)",
+                         ["note.C03.ReturnedAtFirstConverged"], notes + clauses(v),
+                         "note.C03.ReturnedAtFirstConverged" in notes and "C03.Sweep.Machine" not in clauses(v)))
 
         # ------------------------------------------------------------------ TraceReports
         import reports
